@@ -18,8 +18,9 @@ the simulation afterwards without side effects (`EEntry`: the dumped world and t
   it reads; `get_done` / `get_all_done` return what the class's done rule gives on the dumped
   world;
 * **ledger** `reset` leaves a zero entry for every learning agent and nothing else; `step` keeps the
-  key set; `get_reward(a)` returns the entry of `a` and leaves `0` there (read-and-reset) — the
-  `ledger` clause (a separate Boolean: `MultiMazeNavigationSim.get_reward` is not read-and-reset);
+  key set; `get_reward(a)` returns the entry of `a` and leaves `0` there (read-and-reset) — for all
+  five classes (`MultiMazeNavigationSim.get_reward` was not read-and-reset before the repair
+  fce2c1d, finding C01-E1);
 * a call that raises ends the trace (what it left of the object is not judged), and a `step` all of whose actions are
   points of the declared action spaces, made in a world satisfying the invariant on a simulation
   whose learning agents all have a ledger entry, does not raise (`stepMustNotRaise`).
@@ -99,24 +100,12 @@ def stepMustNotRaise (cfg : Cfg) (w : World) (acts : List (Aid × Act)) : Bool :
    | .teamBattle | .predatorPrey => true
    | _ => (List.range w.n).all fun a => (w.stOf a).active)
 
-/-- what the theorem `step_noRaise` needs on top (the two ways in which the unchanged
-`TeamBattleSim.step` / `PredatorPreyResourcesSim.step` raise for in-space actions — findings C02-E2,
-C02-E3 — are excluded): no agent asks for two or more attacks at once, and in `TeamBattleSim` every
-agent that can be killed has a ledger entry -/
-def stepSafe (cfg : Cfg) (w : World) (acts : List (Aid × Act)) : Bool :=
-  match cfg.which with
-  | .teamBattle =>
-    acts.all (fun x => match x.2.attack with | .count k => decide (k ≤ 1) | _ => false) &&
-    (List.range w.n).all cfg.isLearning
-  | .predatorPrey => acts.all (fun x => match x.2.attack with | .count k => decide (k ≤ 1) | _ => false)
-  | _ => true
-
 structure J where
   w       : World
   rewards : Option Ledger
 
 /-- one entry, given what could be seen before the call -/
-def judge1 (cfg : Cfg) (w0 : World) (ledger : Bool) (j : J) (op : EOp) (e : EEntry) : Bool :=
+def judge1 (cfg : Cfg) (w0 : World) (j : J) (op : EOp) (e : EEntry) : Bool :=
   match e.res with
   | .err _ =>
     (match op, j.rewards with
@@ -141,22 +130,22 @@ def judge1 (cfg : Cfg) (w0 : World) (ledger : Bool) (j : J) (op : EOp) (e : EEnt
       (e.w == j.w) &&
       (match res, j.rewards, e.rewards with
        | .int x, some r, some r' =>
-         (r' == dictSet r a 0) && (!ledger || r.lookup a == some x)
+         (r' == dictSet r a 0) && (r.lookup a == some x)
        | _, _, _ => false)
     | .done a => (e.w == j.w) && (e.rewards == j.rewards) && (res == resOfBool (doneW cfg j.w a))
     | .allDone => (e.w == j.w) && (e.rewards == j.rewards) && (res == resOfBool (allDoneW cfg j.w))
 
-def specFrom (cfg : Cfg) (w0 : World) (ledger : Bool) : J → List (EOp × EEntry) → Bool
+def specFrom (cfg : Cfg) (w0 : World) : J → List (EOp × EEntry) → Bool
   | _, [] => true
   | j, (op, e) :: rest =>
-    judge1 cfg w0 ledger j op e &&
+    judge1 cfg w0 j op e &&
     (match e.res with
      | .err _ => rest.isEmpty
-     | _ => specFrom cfg w0 ledger ⟨e.w, e.rewards⟩ rest)
+     | _ => specFrom cfg w0 ⟨e.w, e.rewards⟩ rest)
 
-/-- **the judge**: `ledger = false` leaves out the read-and-reset clause of `get_reward` -/
-def specEx (cfg : Cfg) (w0 : World) (ledger : Bool) (tr : List (EOp × EEntry)) : Bool :=
-  specFrom cfg w0 ledger ⟨w0, none⟩ tr
+/-- **the judge** -/
+def specEx (cfg : Cfg) (w0 : World) (tr : List (EOp × EEntry)) : Bool :=
+  specFrom cfg w0 ⟨w0, none⟩ tr
 
 /-! ## the hypotheses of the theorems, as a Boolean -/
 
@@ -185,7 +174,7 @@ def actsOKb (cfg : Cfg) (w0 : World) (acts : List (Aid × Act)) : Bool :=
 /-- **the hypotheses of `examples_hist`**: the world as the constructors leave it (everybody alive,
 legal vitals: `vitalsAlive`; configuration facts `cfgOKb`; positive encodings, non-negative initial
 ammunition), the history starts with a reset, every reset order is covered (`resetOKb`), every step's
-moves are in the declared spaces (`actsOKb`) and the step is `stepSafe` -/
+moves are in the declared spaces (`actsOKb`) -/
 def exPre (cfg : Cfg) (w0 : World) (ops : List EOp) : Bool :=
   cfgOKb w0 && w0.vitalsAlive && noAmmoCb w0 &&
   w0.allAgents.all (fun b => decide (0 < w0.encOf b) && decide (0 ≤ (w0.cfgOf b).initAmmo)) &&
@@ -193,7 +182,7 @@ def exPre (cfg : Cfg) (w0 : World) (ops : List EOp) : Bool :=
   ops.all fun op =>
     match op with
     | .reset order _ => resetOKb cfg w0 order
-    | .step acts _ => actsOKb cfg w0 acts && stepSafe cfg w0 acts
+    | .step acts _ => actsOKb cfg w0 acts
     | _ => true
 
 def zipOps : List EOp → List EEntry → List (EOp × EEntry)
